@@ -859,6 +859,17 @@ fn oracle(a: &Asked, comp: Option<Compression>, tr: bool, stream: Option<i16>, f
             .decompress_vec(&frame[9..])
             .map_err(|e| format!("Snappy body does not decompress: {e}"))?,
     };
+    if let Some(c) = comp {
+        // the driver's own `frame::decompress` (with its size guards) must accept the driver's own compressed body
+        match scylla_cql::frame::decompress(&frame[9..], c) {
+            Ok(d) => {
+                if d != body {
+                    return Err("frame::decompress of the emitted body differs from the reference decompressor".into());
+                }
+            }
+            Err(e) => return Err(format!("the driver's own frame::decompress rejects the emitted body: {e}")),
+        }
+    }
     if comp.is_some() && body != plain_body {
         // (for STARTUP the two serializations may iterate the map differently only if the map changed - it did not)
         return Err("compressed body does not decompress to the uncompressed body".into());
@@ -909,6 +920,27 @@ fn big_len(what: &str, n: usize, ctx: &mut Ctx) -> String {
             let p = QueryParameters { paging_state: PagingState::new_from_raw_bytes(zeros), ..Default::default() };
             let q = Query { contents: Cow::Borrowed("x"), parameters: p };
             SerializedRequest::make(&q, None, false).map(|_| ()).map_err(|e| err_kind(&e))
+        }
+        "execute-paging-state" => {
+            let p = QueryParameters { paging_state: PagingState::new_from_raw_bytes(zeros), ..Default::default() };
+            let e = ExecuteV2 { id: [1u8].as_slice().into(), result_metadata_id: None, parameters: p };
+            SerializedRequest::make(&e, None, false).map(|_| ()).map_err(|e| err_kind(&e))
+        }
+        "adapter-value" => {
+            // a typed row with one oversize cell through RawBatchValuesAdapter
+            let rows: Vec<Vec<Cell>> = vec![vec![MaybeUnset::Set(Some(zeros))]];
+            let specs = vec![ColumnSpec::borrowed("c", ColumnType::Native(NativeType::Blob), TableSpec::borrowed("ks", "t"))];
+            let all = [specs];
+            let contexts = all.iter().map(|s| RowSerializationContext::from_specs(s.as_slice()));
+            let b = Batch {
+                statements: Cow::Owned(vec![BatchStatement::Prepared { id: Cow::Borrowed(&[1u8][..]) }]),
+                batch_type: BatchType::Logged,
+                consistency: Consistency::One,
+                serial_consistency: None,
+                timestamp: None,
+                values: RawBatchValuesAdapter::new(&rows, contexts),
+            };
+            SerializedRequest::make(&b, None, false).map(|_| ()).map_err(|e| err_kind(&e))
         }
         "auth-response" => SerializedRequest::make(&AuthResponse { response: Some(zeros) }, None, false)
             .map(|_| ())
@@ -1149,6 +1181,8 @@ pub fn generate(rng: &mut Rng, tier: Tier, emit: &mut dyn FnMut(String)) {
             emit(format!("query {comp} 0 7 78 One N N N N 0 00*{n}"));
             emit(format!("query {comp} 1 N 78 One LocalSerial -1 -1 - 1 N*{n}"));
             emit(format!("execute {comp} 0 N 1234 N All N N N N 0 U,0102*{},-", n - 2));
+            emit(format!("execute {comp} 1 N 01 N Two N N N N 1 00*{n}"));
+            emit(format!("execute {comp} 0 N 01 0203 Two N N N N 0 N*{n}"));
             emit(format!("prepare {comp} 0 N y{n}"));
             emit(format!("auth {comp} 0 N z{n}"));
         }
@@ -1359,13 +1393,13 @@ pub fn generate(rng: &mut Rng, tier: Tier, emit: &mut dyn FnMut(String)) {
     }
 
     // (6) 31-bit boundary of the length guards (lazily mapped zero pages; nothing is copied when the guard works)
-    for what in ["query-statement", "prepare-statement", "batch-statement", "value", "auth-response"] {
+    for what in ["query-statement", "prepare-statement", "batch-statement", "value", "auth-response", "adapter-value"] {
         emit(format!("biglen {what} {}", 1u64 << 31));
         if tier == Tier::Thorough {
             emit(format!("biglen {what} {}", (1u64 << 31) + 1));
         }
     }
-    if tier == Tier::Thorough {
-        emit(format!("biglen paging-state {}", 1u64 << 31));
-    }
+    // (these two copy 2 GiB into an Arc<[u8]> before the guard is reached: ~1.5 s each)
+    emit(format!("biglen paging-state {}", 1u64 << 31));
+    emit(format!("biglen execute-paging-state {}", 1u64 << 31));
 }
